@@ -284,7 +284,7 @@ def sel_c10(mm):
 def sel_c20(mm):
     _tool_if_crcmodel(mm)
     t = set(mm.get("tags", []))
-    return mm["stage"] == "ser" and (bool(t & {"user"}) or (_want(mm).get("sig") in ("crc+cobs", "cobs", "crc") and bool(t & {"bytes", "thr", "panic", "cobs_ops"})))
+    return mm["stage"] == "ser" and (bool(t & {"user", "undo", "iothr", "iobytes"}) or (_want(mm).get("sig") in ("crc+cobs", "cobs", "crc") and bool(t & {"bytes", "thr", "panic", "cobs_ops"})))
 
 
 def run_c05(ctx):
